@@ -25,6 +25,17 @@ Proof.
   intros Ha. apply H2. apply in_app_iff. left. exact Ha.
 Qed.
 
+Lemma NoDup_app_disj {A} (l1 l2 : list A) : NoDup l1 -> NoDup l2 -> (forall x, In x l1 -> ~ In x l2) -> NoDup (l1 ++ l2).
+Proof.
+  induction l1 as [|a l1 IH]; intros H1 H2 H; [exact H2|]. inversion H1; subst. simpl. constructor.
+  - intros Ha. apply in_app_iff in Ha. destruct Ha as [Ha|Ha]; [contradiction | apply (H a); [left; reflexivity | exact Ha]].
+  - apply IH; [assumption | assumption | intros x Hx; apply H; right; exact Hx].
+Qed.
+Lemma NoDup_snoc {A} (l : list A) a : NoDup l -> ~ In a l -> NoDup (l ++ [a]).
+Proof.
+  intros H1 H2. apply NoDup_app_disj; [exact H1 | constructor; [intros [] | constructor]|]. intros x Hx [<-|[]]. contradiction.
+Qed.
+
 Lemma tsum_perm {A} (f : A -> nat) l1 l2 : Permutation l1 l2 -> tsum f l1 = tsum f l2.
 Proof.
   intros H. induction H; try reflexivity.
@@ -295,12 +306,15 @@ Definition stepM (st : zmap * list positive) (m : positive) : zmap * list positi
 Definition stepI (c : zmap) (d : positive) : zmap :=
   if getz c d =? K64 then c else PM.add d (wrap64 (getz c d + 1)) c.
 
+Lemma fold_left_ext {A B} (f h : A -> B -> A) l : (forall a b, f a b = h a b) -> forall a, fold_left f l a = fold_left h l a.
+Proof. intros E. induction l as [|b l IH]; intros a; [reflexivity|]. cbn [fold_left]. rewrite E. apply IH. Qed.
+
 Lemma mark_flat g grp : forall st,
   fold_left (fun '(c, v2) s => fp_mark_group c v2 (getl (g_sets g) s)) grp st =
   fold_left stepM (flat_map (fun s => getl (g_sets g) s) grp) st.
 Proof.
   induction grp as [|s grp IH]; intros [c v2]; [reflexivity|]. cbn [fold_left flat_map]. rewrite fold_left_app, IH.
-  f_equal.
+  f_equal. unfold fp_mark_group. apply fold_left_ext. intros [c' v2'] m. reflexivity.
 Qed.
 
 Lemma incr_flat (dp : positive -> list positive) v2 : forall c,
@@ -312,34 +326,34 @@ Proof. induction l as [|a l IH]; [reflexivity|]. cbn [flat_map]. rewrite countp_
 
 Lemma mark_spec (cI : zmap) L : forall c v2,
   NoDup v2 -> (forall x, In x v2 -> getz c x = 0 /\ getz cI x = K64) -> (forall x, ~ In x v2 -> getz c x = getz cI x) ->
-  match fold_left stepM L (c, v2) with
-  | (c', v2') =>
-      NoDup v2' /\ (forall x, In x v2' -> getz c' x = 0 /\ getz cI x = K64) /\ (forall x, ~ In x v2' -> getz c' x = getz cI x) /\
-      (forall x, In x v2' <-> In x v2 \/ (In x L /\ getz cI x = K64))
-  end.
+  let r := fold_left stepM L (c, v2) in
+  NoDup (snd r) /\ (forall x, In x (snd r) -> getz (fst r) x = 0 /\ getz cI x = K64) /\
+  (forall x, ~ In x (snd r) -> getz (fst r) x = getz cI x) /\
+  (forall x, In x (snd r) <-> In x v2 \/ (In x L /\ getz cI x = K64)).
 Proof.
-  induction L as [|m L IH]; intros c v2 H1 H2 H3.
-  - cbn [fold_left]. split; [exact H1|]. split; [exact H2|]. split; [exact H3|]. intros x. simpl. tauto.
-  - cbn [fold_left stepM]. destruct (getz c m =? K64) eqn:E.
+  induction L as [|m L IH]; intros c v2 H1 H2 H3; cbv zeta.
+  - cbn [fold_left fst snd]. split; [exact H1|]. split; [exact H2|]. split; [exact H3|]. intros x. simpl. tauto.
+  - cbn [fold_left]. change (stepM (c, v2) m) with (if getz c m =? K64 then (PM.add m 0 c, v2 ++ [m]) else (c, v2)).
+    destruct (getz c m =? K64) eqn:E.
     + apply Z.eqb_eq in E.
       assert (Hm : ~ In m v2). { intros Hm. destruct (H2 m Hm) as [A _]. unfold K64 in E. lia. }
       assert (HmI : getz cI m = K64) by (rewrite <- (H3 m Hm); exact E).
-      specialize (IH (PM.add m 0 c) (v2 ++ [m])).
-      destruct (fold_left stepM L (PM.add m 0 c, v2 ++ [m])) as [c' v2'].
-      destruct IH as [A [B [C D]]].
-      * apply NoDup_app_comm. simpl. constructor; assumption.
-      * intros x Hx. apply in_app_iff in Hx. destruct Hx as [Hx|[<-|[]]].
-        -- assert (x <> m) by (intros ->; contradiction). rewrite getz_add_other by assumption. apply H2. exact Hx.
-        -- rewrite getz_add_same. auto.
-      * intros x Hx. assert (x <> m) by (intros ->; apply Hx; apply in_app_iff; right; left; reflexivity).
-        rewrite getz_add_other by assumption. apply H3. intros Hv. apply Hx. apply in_app_iff. left. exact Hv.
-      * split; [exact A|]. split; [exact B|]. split; [exact C|]. intros x. rewrite (D x), in_app_iff. simpl. split.
-        -- intros [[H|[<-|[]]]|[H H']]; auto.
-        -- intros [H|[[<-|H] H']]; auto.
-    + apply Z.eqb_neq in E. specialize (IH c v2 H1 H2 H3). destruct (fold_left stepM L (c, v2)) as [c' v2'].
-      destruct IH as [A [B [C D]]]. split; [exact A|]. split; [exact B|]. split; [exact C|]. intros x. rewrite (D x). simpl. split.
+      assert (P1 : NoDup (v2 ++ [m])) by (apply NoDup_snoc; assumption).
+      assert (P2 : forall x, In x (v2 ++ [m]) -> getz (PM.add m 0 c) x = 0 /\ getz cI x = K64).
+      { intros x Hx. apply in_app_iff in Hx. destruct Hx as [Hx|[<-|[]]].
+        - assert (x <> m) by (intros ->; contradiction). rewrite getz_add_other by assumption. apply H2. exact Hx.
+        - rewrite getz_add_same. auto. }
+      assert (P3 : forall x, ~ In x (v2 ++ [m]) -> getz (PM.add m 0 c) x = getz cI x).
+      { intros x Hx. assert (x <> m) by (intros ->; apply Hx; apply in_app_iff; right; left; reflexivity).
+        rewrite getz_add_other by assumption. apply H3. intros Hv. apply Hx. apply in_app_iff. left. exact Hv. }
+      destruct (IH (PM.add m 0 c) (v2 ++ [m]) P1 P2 P3) as [A [B [C D]]].
+      split; [exact A|]. split; [exact B|]. split; [exact C|]. intros x. rewrite (D x), in_app_iff. simpl. split.
+      * intros [[H|[<-|[]]]|[H H']]; auto.
+      * intros [H|[[<-|H] H']]; auto.
+    + apply Z.eqb_neq in E. destruct (IH c v2 H1 H2 H3) as [A [B [C D]]].
+      split; [exact A|]. split; [exact B|]. split; [exact C|]. intros x. rewrite (D x). simpl. split.
       * intros [H|[H H']]; auto.
-      * intros [H|[[<-|H] H']]; auto. left. destruct (in_dec Pos.eq_dec x v2) as [Hv|Hv]; [exact Hv|]. exfalso. apply E. rewrite (H3 x Hv). exact H'.
+      * intros [H|[[<-|H] H']]; auto. left. destruct (in_dec Pos.eq_dec m v2) as [Hv|Hv]; [exact Hv|]. exfalso. apply E. rewrite (H3 m Hv). exact H'.
 Qed.
 
 Lemma incr_spec x E : forall c,
@@ -386,18 +400,19 @@ Proof.
   { intros p d Hp Hd. apply Hvr. apply (reach_d g p d); [apply Hvr; exact Hp | exact Hd]. }
   assert (Hvis_nodes : forall v, In v vis -> In v nodes) by (intros v Hv; apply Hrn, Hvr; exact Hv).
   assert (HSPle : forall l d, NoDup l -> (forall p, In p l -> In p nodes) -> In d nodes -> Z.of_nat (SP g l d) < K64).
-  { intros l d Hl Hi Hd. pose proof (tsum_incl_le (fun p => countp d (dp p)) l nodes Hl Hi). specialize (Hb' d Hd). unfold SP in *. fold dp in Hb'. lia. }
-  unfold forward_propagate. fold nodes. rewrite E1.
+  { intros l d Hl Hi Hd. pose proof (tsum_incl_le (fun p => countp d (getl (g_deps g) p)) l nodes Hl Hi). specialize (Hb' d Hd). unfold SP in *. lia. }
+  unfold forward_propagate. cbv zeta. unfold nodes in *. rewrite E1.
   destruct (g_bip g) eqn:Eb.
   - (* BiPropGraph: second pass *)
     unfold fp_pass2. rewrite mark_flat.
     set (L := flat_map (fun s => getl (g_sets g) s) grp).
-    pose proof (mark_spec c1 L c1 [] (NoDup_nil _) (fun x (H : In x []) => match H with end) (fun x _ => eq_refl)) as HM.
-    destruct (fold_left stepM L (c1, [])) as [c2 v2]. destruct HM as [M1 [M2 [M3 M4]]].
+    destruct (mark_spec c1 L c1 [] (NoDup_nil _) (fun x (H : In x []) => match H with end) (fun x _ => eq_refl)) as [M1 [M2 [M3 M4]]].
+    rewrite (surjective_pairing (fold_left stepM L (c1, []))).
+    set (c2 := fst (fold_left stepM L (c1, []))) in *. set (v2 := snd (fold_left stepM L (c1, []))) in *.
     assert (HL : forall m, In m L <-> exists p s, reach g p /\ PM.find p (g_setof g) = Some s /\ In m (getl (g_sets g) s)).
     { intros m. unfold L. rewrite in_flat_map. split.
       - intros [s [Hs Hm]]. apply Hgrp in Hs. destruct Hs as [_ [v [Hv Hf]]]. exists v, s. split; [apply Hvr; exact Hv | auto].
-      - intros [p [s [Hr [Hf Hm]]]]. exists s. split; [|exact Hm]. apply Hgrp. split; [reflexivity|]. exists p. split; [apply Hvr; exact Hr | exact Hf]. }
+      - intros [p [s [Hr [Hf Hm]]]]. exists s. split; [|exact Hm]. apply Hgrp. split; [exact Eb|]. exists p. split; [apply Hvr; exact Hr | exact Hf]. }
     assert (HLn : forall m, In m L -> In m nodes).
     { intros m Hm. apply HL in Hm. destruct Hm as [p [s [Hr [Hf Hm]]]]. apply (Hlive p s m); [apply Hrn; exact Hr | exact Hf | exact Hm]. }
     assert (Hv2 : forall x, In x v2 <-> In x L /\ ~ In x vis).
@@ -407,7 +422,7 @@ Proof.
       - intros [H1 H2]. right. split; [exact H1|]. apply (Hc1 x (HLn x H1)). exact H2. }
     assert (Hv2n : forall x, In x v2 -> In x nodes) by (intros x Hx; apply HLn; apply Hv2; exact Hx).
     assert (HBnd : NoDup (vis ++ v2)).
-    { apply NoDup_app_comm. apply NoDup_app_intro; [exact M1 | exact Hvn|]. intros x Hx Hv. apply Hv2 in Hx. tauto. }
+    { apply NoDup_app_disj; [exact Hvn | exact M1|]. intros x Hv Hx. apply Hv2 in Hx. tauto. }
     assert (HBn : forall p, In p (vis ++ v2) -> In p nodes) by (intros p Hp; apply in_app_iff in Hp; destruct Hp; auto).
     change (fun c n => fold_left (fun c0 d => if getz c0 d =? K64 then c0 else PM.add d (wrap64 (getz c0 d + 1)) c0) (getl (g_deps g) n) c)
       with (fun c n => fold_left stepI (dp n) c).
@@ -443,7 +458,7 @@ Proof.
       * intros d Hd Hi. apply (Hc3 d Hd). intros Hin. apply Hinc in Hin; [congruence | exact Hd].
       * rewrite Eb. discriminate.
     + intros n Hn. rewrite (Hinc n Hn), in_app_iff. unfold rerun_set. rewrite (Hvr n), (Hv2 n), (HL n). rewrite <- (Hvr n). split.
-      * intros [H|[H _]]; [left; exact H | right; split; [reflexivity | exact H]].
+      * intros [H|[H _]]; [left; exact H | right; split; [exact Eb | exact H]].
       * intros [H|[_ H]]; [left; exact H|]. destruct (in_dec Pos.eq_dec n vis) as [Hv|Hv]; [left; exact Hv | right; split; assumption].
   - (* plain Graph *)
     assert (Hinc : forall d, In d nodes -> (incb c1 d = true <-> In d vis)).
@@ -461,5 +476,206 @@ Proof.
       * intros d Hd Hi. rewrite Hcnt0. apply Hinc in Hi; [|exact Hd]. split; [apply (Hc1 d Hd); exact Hi | apply HSPle; assumption].
       * intros d Hd Hi. apply (Hc1 d Hd). intros Hin. apply Hinc in Hin; [congruence | exact Hd].
       * intros _ p d Hp Hi Hd. apply Hinc; [eapply Hcl; eauto|]. apply (Hvis_closed p d); [apply Hinc; assumption | exact Hd].
-    + intros n Hn. rewrite (Hinc n Hn), (Hvr n). unfold rerun_set. split; [auto|]. intros [H|[H _]]; [exact H | discriminate].
+    + intros n Hn. rewrite (Hinc n Hn), (Hvr n). unfold rerun_set. split; [auto|]. intros [H|[H _]]; [exact H | congruence].
+Qed.
+
+(* ------------------------------------------------------------------------------------------------ boolean domain, corollaries *)
+
+Definition sets_liveb (g : graph) : bool :=
+  forallb (fun v => match PM.find v (g_setof g) with
+                    | Some s => forallb (fun m => memp m (g_nodes g)) (getl (g_sets g) s)
+                    | None => true end) (g_nodes g).
+Definition zero_or_complb (g : graph) : bool :=
+  forallb (fun n => (getz (g_cnt g) n =? 0) || (getz (g_cnt g) n =? K64)) (g_nodes g).
+(* the domain of C31: a well-formed graph in which every incomplete node has counter 0 (after a completed evaluation
+   plus setIncomplete calls, or freshly added nodes), set members alive *)
+Definition fp_domb (g : graph) : bool := wfgb g && zero_or_complb g && sets_liveb g.
+
+Lemma sets_liveb_live g : sets_liveb g = true -> sets_live g.
+Proof.
+  unfold sets_liveb, sets_live. intros H v s m Hv Hs Hm. rewrite forallb_forall in H. specialize (H v Hv). rewrite Hs in H.
+  rewrite forallb_forall in H. apply memp_In. apply H. exact Hm.
+Qed.
+
+Lemma wfgb_parts g : wfgb g = true ->
+  NoDup (g_nodes g) /\ (forall p d, In p (g_nodes g) -> In d (getl (g_deps g) p) -> In d (g_nodes g)) /\
+  (forall d, In d (g_nodes g) -> Z.of_nat (np_count g d) < K64).
+Proof.
+  unfold wfgb, wfxb. intros H. apply andb_true_iff in H. destruct H as [H Hlt]. apply andb_true_iff in H. destruct H as [Hw _].
+  apply andb_true_iff in Hw. destruct Hw as [Hnd Hcl]. cbn [xg_of x_nodes x_deps] in *. rewrite forallb_forall in Hcl, Hlt.
+  split; [apply nodupb_NoDup; exact Hnd|]. split.
+  - intros p d Hp Hd. specialize (Hcl p Hp). rewrite forallb_forall in Hcl. apply memp_In. apply Hcl. exact Hd.
+  - intros d Hd. apply Z.ltb_lt. apply Hlt. exact Hd.
+Qed.
+
+Lemma fp_domb_correct g : fp_domb g = true ->
+  exists c', forward_propagate g = Some (with_cnt g c') /\ Prepared (xg_of g) c' /\
+    (forall n, In n (g_nodes g) -> (incb c' n = true <-> rerun_set g n)).
+Proof.
+  unfold fp_domb. intros H. apply andb_true_iff in H. destruct H as [H Hl]. apply andb_true_iff in H. destruct H as [Hw Hz].
+  destruct (wfgb_parts g Hw) as [A [B C]]. apply fp_correct; try assumption.
+  - intros n Hn. unfold zero_or_complb in Hz. rewrite forallb_forall in Hz. specialize (Hz n Hn). apply orb_true_iff in Hz.
+    destruct Hz as [E|E]; apply Z.eqb_eq in E; auto.
+  - apply sets_liveb_live. exact Hl.
+Qed.
+
+Lemma reach_nodes g : (forall p d, In p (g_nodes g) -> In d (getl (g_deps g) p) -> In d (g_nodes g)) ->
+  forall n, reach g n -> In n (g_nodes g).
+Proof.
+  intros Hcl n Hr. induction Hr as [n Hn | p d Hp IH Hd].
+  - unfold fp_start in Hn. apply filter_In in Hn. tauto.
+  - eapply Hcl; eauto.
+Qed.
+
+(* ---- set objects vs propagation classes *)
+
+Definition has_set (g : graph) (n : positive) : Prop := PM.find n (g_setof g) <> None.
+Definition ideal_set (g : graph) (n : positive) : Prop :=
+  reach g n \/ (g_bip g = true /\ has_set g n /\ exists p, reach g p /\ has_set g p /\ cls_of g p = cls_of g n).
+
+Lemma plist_eqb_eq a b : plist_eqb a b = true -> a = b.
+Proof.
+  unfold plist_eqb. revert b. induction a as [|x a IH]; intros [|y b] H; try reflexivity; try discriminate.
+  simpl in H. apply andb_true_iff in H. destruct H as [Hl H]. apply andb_true_iff in H. destruct H as [Hxy H].
+  apply Pos.eqb_eq in Hxy. subst. f_equal. apply IH. apply andb_true_iff. split; [exact Hl | exact H].
+Qed.
+
+Lemma In_sorted_insert x y l : In x (sorted_insert y l) <-> x = y \/ In x l.
+Proof.
+  induction l as [|a l IH]; simpl; [intuition|]. destruct (y <=? a)%positive; simpl; [intuition|]. rewrite IH. intuition.
+Qed.
+Lemma In_sortp x l : In x (sortp l) <-> In x l.
+Proof.
+  unfold sortp. induction l as [|a l IH]; simpl; [tauto|]. rewrite In_sorted_insert, IH. intuition.
+Qed.
+
+Lemma coherent_members g : sets_coherentb g = true ->
+  forall p s, In p (g_nodes g) -> PM.find p (g_setof g) = Some s ->
+  forall m, In m (getl (g_sets g) s) <-> (In m (g_nodes g) /\ has_set g m /\ cls_of g m = cls_of g p).
+Proof.
+  unfold sets_coherentb. intros H p s Hp Hs m. rewrite forallb_forall in H. specialize (H p Hp). rewrite Hs in H.
+  apply plist_eqb_eq in H. rewrite <- (In_sortp m (getl (g_sets g) s)), H, In_sortp, filter_In. unfold has_set.
+  destruct (PM.find m (g_setof g)) as [sm|].
+  - rewrite Pos.eqb_eq. intuition congruence.
+  - intuition congruence.
+Qed.
+
+Lemma coherent_rerun_ideal g :
+  sets_coherentb g = true -> (forall p d, In p (g_nodes g) -> In d (getl (g_deps g) p) -> In d (g_nodes g)) ->
+  forall n, In n (g_nodes g) -> (rerun_set g n <-> ideal_set g n).
+Proof.
+  intros Hc Hcl n Hn. unfold rerun_set, ideal_set. split.
+  - intros [H|[Hb [p [s [Hr [Hs Hm]]]]]]; [left; exact H|]. right. split; [exact Hb|].
+    pose proof (reach_nodes g Hcl p Hr) as Hp.
+    apply (coherent_members g Hc p s Hp Hs) in Hm. destruct Hm as [_ [Hh Hcls]]. split; [exact Hh|].
+    exists p. split; [exact Hr|]. split; [unfold has_set; congruence | congruence].
+  - intros [H|[Hb [Hh [p [Hr [Hhp Hcls]]]]]]; [left; exact H|]. right. split; [exact Hb|].
+    unfold has_set in Hhp. destruct (PM.find p (g_setof g)) as [s|] eqn:Hs; [|congruence].
+    exists p, s. split; [exact Hr|]. split; [exact Hs|].
+    apply (coherent_members g Hc p s (reach_nodes g Hcl p Hr) Hs). split; [exact Hn|]. split; [exact Hh | congruence].
+Qed.
+
+(* ------------------------------------------------------------------------------------------------ statements for Props/Properties_C31.v *)
+
+Lemma NoDup_nodupb l : NoDup l -> nodupb l = true.
+Proof.
+  induction l as [|a l IH]; intros H; [reflexivity|]. inversion H; subst. simpl. apply andb_true_iff. split; [|apply IH; assumption].
+  apply negb_true_iff. apply memp_false. assumption.
+Qed.
+
+Lemma Prepared_preparedb x c : Prepared x c -> preparedb x c = true.
+Proof.
+  intros [P1 P2 P3 P4 P5]. unfold preparedb, wfxb.
+  assert (W : nodupb (x_nodes x) && forallb (fun p => forallb (fun d => memp d (x_nodes x)) (x_deps x p)) (x_nodes x) = true).
+  { apply andb_true_iff. split; [apply NoDup_nodupb; exact P1|]. apply forallb_forall. intros p Hp. apply forallb_forall. intros d Hd.
+    apply memp_In. eapply P2; eauto. }
+  rewrite W. cbn [andb]. apply andb_true_iff. split.
+  - apply forallb_forall. intros d Hd. destruct (incb c d) eqn:Hi.
+    + destruct (P3 d Hd Hi) as [A B]. unfold cnt0, tsum in A, B. unfold inc_preds. rewrite A.
+      rewrite Z.eqb_refl, orb_true_r, andb_true_r. apply andb_true_iff. split; apply Z.leb_le; lia.
+    + rewrite (P4 d Hd Hi). reflexivity.
+  - destruct (x_bip x) eqn:Eb; [reflexivity|]. cbn [orb]. apply forallb_forall. intros p Hp. destruct (incb c p) eqn:Hi; [|reflexivity].
+    cbn [negb orb]. apply forallb_forall. intros d Hd. eapply P5; eauto.
+Qed.
+
+Lemma C31_closure_proof : forall g, fp_domb g = true ->
+  exists g', forward_propagate g = Some g' /\ xg_of g' = xg_of g /\
+    (forall n, In n (g_nodes g) -> (incb (g_cnt g') n = true <-> rerun_set g n)) /\
+    negb (preparedb (xg_of g') (g_cnt g')) = false.
+Proof.
+  intros g H. destruct (fp_domb_correct g H) as [c' [E [HP Hi]]]. exists (with_cnt g c'). split; [exact E|]. split; [reflexivity|].
+  split; [exact Hi|]. apply negb_false_iff. apply Prepared_preparedb. exact HP.
+Qed.
+
+Lemma C31_rerun_proof : forall g g', fp_domb g = true -> forward_propagate g = Some g' ->
+  forall wave sched,
+    let s := run_sched (xg_of g') wave (init_st (xg_of g') (g_cnt g')) sched in
+    safety_stmt (xg_of g') (g_cnt g') s /\
+    (forall n, In n (started_l (s_log s)) -> rerun_set g n) /\
+    (acyclic (xg_of g') -> quiescent s = true ->
+     forall n, In n (g_nodes g) ->
+       (rerun_set g n -> countp n (started_l (s_log s)) = 1%nat /\ countp n (finl (s_log s)) = 1%nat) /\
+       (~ rerun_set g n -> ~ In n (started_l (s_log s))) /\ getz (s_cnt s) n = K64).
+Proof.
+  intros g g' H E wave sched s. destruct (fp_domb_correct g H) as [c' [E' [HP Hi]]]. rewrite E in E'. injection E' as ->.
+  pose proof (exec_safe (xg_of (with_cnt g c')) wave c' HP sched) as HS. fold s in HS. split; [exact HS|].
+  destruct HS as [_ [S2 [_ [_ S5]]]]. split.
+  - intros n Hn. destruct (S2 n Hn) as [A B]. apply Hi; assumption.
+  - intros Ha Hq n Hn. pose proof (exec_live (xg_of (with_cnt g c')) wave c' HP sched Ha Hq n Hn) as [L1 L2]. split; [|split; [|exact L1]].
+    + intros Hr. apply L2. apply Hi; assumption.
+    + intros Hr. apply (S5 n Hn). destruct (incb c' n) eqn:Ei; [|reflexivity]. exfalso. apply Hr. apply Hi; assumption.
+Qed.
+
+Lemma setAll_all_inc g : wfgb g = true -> forall n, In n (g_nodes g) -> incb (g_cnt (set_all_incomplete g)) n = true.
+Proof.
+  unfold wfgb. intros H n Hn. apply andb_true_iff in H. destruct H as [H Hlt]. apply andb_true_iff in H. destruct H as [_ Hnp].
+  rewrite forallb_forall in Hlt, Hnp. unfold set_all_incomplete, with_cnt, incb. cbn [g_cnt]. rewrite getz_fold_add.
+  pose proof Hn as Hm. apply memp_In in Hm. rewrite Hm. specialize (Hnp n Hn). apply Z.eqb_eq in Hnp. rewrite Hnp.
+  specialize (Hlt n Hn). apply Z.ltb_lt in Hlt. apply negb_true_iff, Z.eqb_neq. lia.
+Qed.
+
+Lemma C31_setAll_proof : forall g, wfgb g = true ->
+  let g' := set_all_incomplete g in
+  forall wave sched,
+    let s := run_sched (xg_of g') wave (init_st (xg_of g') (g_cnt g')) sched in
+    safety_stmt (xg_of g') (g_cnt g') s /\
+    (acyclic (xg_of g') -> quiescent s = true ->
+     forall n, In n (g_nodes g) ->
+       countp n (started_l (s_log s)) = 1%nat /\ countp n (finl (s_log s)) = 1%nat /\ getz (s_cnt s) n = K64).
+Proof.
+  intros g H g' wave sched s. pose proof (preparedb_Prepared _ _ (setAll_prepared g H)) as HP. fold g' in HP.
+  split; [apply exec_safe; exact HP|]. intros Ha Hq n Hn.
+  destruct (exec_live (xg_of g') wave (g_cnt g') HP sched Ha Hq n Hn) as [L1 L2].
+  destruct (L2 (setAll_all_inc g H n Hn)) as [A B]. auto.
+Qed.
+
+Definition stale_ops : list op :=
+  [ONode 0; ONode 0; ONode 0; ONode 0; OBip 2 1; OBip 4 3; OBip 3 1; OCompl 1; OCompl 2; OCompl 3; OCompl 4; OInc 2].
+
+Lemma C31_refuted_proof :
+  exists g g', build_ops true stale_ops = Some g /\ fp_domb g = true /\ negb (sets_coherentb g) = true /\
+    forward_propagate g = Some g' /\ In 3%positive (g_nodes g) /\ ideal_set g 3 /\ incb (g_cnt g') 3 = false.
+Proof.
+  eexists. eexists. split; [vm_compute; reflexivity|]. split; [vm_compute; reflexivity|]. split; [vm_compute; reflexivity|].
+  split; [vm_compute; reflexivity|]. split; [vm_compute; auto|]. split; [|vm_compute; reflexivity].
+  right. split; [reflexivity|]. split; [vm_compute; discriminate|]. exists 2%positive.
+  split; [apply reach_m; vm_compute; auto|]. split; [vm_compute; discriminate | vm_compute; reflexivity].
+Qed.
+
+Lemma C31_full_statement_false_proof :
+  ~ (forall bip ops g, build_ops bip ops = Some g -> fp_domb g = true ->
+     exists g', forward_propagate g = Some g' /\ forall n, In n (g_nodes g) -> (incb (g_cnt g') n = true <-> ideal_set g n)).
+Proof.
+  intros H. destruct C31_refuted_proof as [g [g' [Hb [Hd [_ [Hf [Hn [Hi Hc]]]]]]]].
+  destruct (H true stale_ops g Hb Hd) as [g'' [Hf' Hall]]. rewrite Hf in Hf'. injection Hf' as <-.
+  apply (Hall 3%positive Hn) in Hi. congruence.
+Qed.
+
+Lemma C31_holds_except_proof : forall g, negb (sets_coherentb g) = false -> fp_domb g = true ->
+  exists g', forward_propagate g = Some g' /\ forall n, In n (g_nodes g) -> (incb (g_cnt g') n = true <-> ideal_set g n).
+Proof.
+  intros g Hc Hd. apply negb_false_iff in Hc. destruct (fp_domb_correct g Hd) as [c' [E [_ Hi]]]. exists (with_cnt g c'). split; [exact E|].
+  intros n Hn. rewrite (Hi n Hn). apply coherent_rerun_ideal; try assumption.
+  unfold fp_domb in Hd. apply andb_true_iff in Hd. destruct Hd as [Hd _]. apply andb_true_iff in Hd. destruct Hd as [Hw _].
+  apply (wfgb_parts g Hw).
 Qed.
